@@ -346,6 +346,7 @@ def _call(ctx: Ctx, cls: str, meth: str, args: dict, oracle: Any, flags: dict, k
 
 def rule_layout(ctx: Ctx) -> None:
     """TT-BIASLAST, TT-PATCH, TT-GEOM, TT-SHAPEFN, TT-ROUNDTRIP (C15)."""
+    ctx.do(rule_patch_geom)
     p = ctx.prog
     ctx.assumptions.add('A3')
     ctx.rule('TT-BIASLAST', 'one layout: rows of the combined gradient = space of G, columns = space of A = input features followed by the bias column', floor=8)
@@ -421,6 +422,13 @@ def rule_layout(ctx: Ctx) -> None:
                           f'[{tag}] set_grad writes {b[3][1] if b else "nothing"} into bias.grad; specified: the last column with the bias\' own shape (OUT), contiguous', b[2] if b else f_s.node)
             else:
                 ctx.check(b is None, 'TT-ROUNDTRIP', f_s, f'[{tag}] no bias write without bias', f'{tag} bias write-back', f'[{tag}] set_grad writes bias.grad although the module has no bias', b[2] if b else f_s.node)
+
+
+def rule_patch_geom(ctx: Ctx) -> None:
+    """TT-PATCH / TT-GEOM for Conv2dModuleHelper._extract_patches (run before the factor rules: they build on it)."""
+    p = ctx.prog
+    ctx.rule('TT-PATCH', 'patch extraction yields (batch, out rows, out cols, channel x kernel row x kernel col) in the weight\'s own feature order', floor=2)
+    ctx.rule('TT-GEOM', 'every operation on H uses index 0 and every operation on W uses index 1 of padding / kernel_size / stride; F.pad pads W first', floor=2)
     # --- conv patch extraction and geometry
     orc = helper_oracle('conv', True)
     for padded in (True, False):
@@ -1115,18 +1123,30 @@ def rule_clip_shard(ctx: Ctx) -> None:
 
 # --------------------------------------------------------------------------- alternative paths under branch facts
 
-def _facts_of(test: ast.expr) -> dict[str, str] | None:
-    """Facts implied by a test being true, for tests of the form max(self.module.<cfg>) == c / self.module.<cfg> == (c, c) joined by `and`."""
+def _facts_of(test: ast.expr, prog: Any = None, cls: str | None = None) -> dict[str, str] | None:
+    """Facts implied by a test being true: conjuncts of the form max(<module>.<cfg>) == c or [tuple(]<module>.<cfg>[)] == (c, c).
+    A test that is a field (`self._pointwise`) stands for the expression the constructor assigns to it.  Conjuncts outside
+    the vocabulary are ignored (fewer facts: the equivalence is only harder to establish)."""
     import re
+    if prog is not None and cls is not None and isinstance(test, ast.Attribute) and isinstance(test.value, ast.Name) and test.value.id == 'self':
+        defs = []
+        for c in prog.mro(cls):
+            init = c.methods.get('__init__')
+            if init is not None:
+                defs += [n.value for n in prog.nodes(init) if isinstance(n, ast.Assign) and len(n.targets) == 1 and norm(n.targets[0]) == norm(test)]
+        writers = [1 for c in prog.mro(cls) + prog.subclasses(cls) for m in c.methods.values() if m.name != '__init__'
+                   for n in prog.nodes(m) if isinstance(n, ast.Attribute) and isinstance(n.ctx, ast.Store) and n.attr == test.attr]
+        if len(defs) == 1 and not writers:
+            test = defs[0]
     out: dict[str, str] = {}
     parts = test.values if isinstance(test, ast.BoolOp) and isinstance(test.op, ast.And) else [test]
     for pt in parts:
         t = norm(pt).replace(' ', '')
-        m = re.fullmatch(r'max\(self\.module\.(kernel_size|padding|stride)\)==(\d+)', t) or re.fullmatch(r'self\.module\.(kernel_size|padding|stride)==\((\d+),\2\)', t)
-        if not m:
-            return None
-        out[m.group(1)] = m.group(2)
-    return out
+        m = re.fullmatch(r'max\((?:self\.)?module\.(kernel_size|padding|stride)\)==(\d+)', t) \
+            or re.fullmatch(r'(?:tuple\()?(?:self\.)?module\.(kernel_size|padding|stride)\)?==\((\d+),\2\)', t)
+        if m:
+            out[m.group(1)] = m.group(2)
+    return out or None
 
 
 def _simplify_axes(a: Any, facts: dict[str, str]) -> Any:
@@ -1156,7 +1176,7 @@ def rule_alt_paths(ctx: Ctx) -> None:
         fl0 = helper_flags(True)
         tests = [n.test for n in p.nodes(f) if isinstance(n, ast.If) and (norm(n.test) not in fl0 or norm(n.test) in _VERIFIED_ALT) and not norm(n.test).startswith('self.has_bias')]
         for t in tests:
-            facts = _facts_of(t)
+            facts = _facts_of(t, p, cls)
             pname = [a for a in f.params if a != 'self'][0]
             res = {}
             for val in (True, False):
